@@ -2556,6 +2556,15 @@ fn gen_op<T: Subject>(rng: &mut Rng, s: &Session<T>, malformed: bool) -> Option<
                 30 => Op::Upper { h },
                 31..=35 => {
                     let mut script = vec![];
+                    if rng.chance(1, 8) {
+                        // many single pushes: exercises Vec's amortised growth (minimum capacity 8, doubling)
+                        if rng.chance(1, 2) {
+                            script.push(VOp::Clear);
+                        }
+                        for _ in 0..(5 + rng.below(14)) {
+                            script.push(VOp::Push(*rng.pick(b"pP7")));
+                        }
+                    }
                     for _ in 0..rng.below(4) {
                         script.push(match rng.below(6) {
                             0 => VOp::Push(*rng.pick(b"pP7")),
